@@ -341,6 +341,8 @@ def rules(ck, P):
             it = ir.unparen(lp[0]["iter"])
             fl = {f["name"]: f["e"] for f in it.get("fields", [])} if it.get("k") == "struct" else {}
             bound = ir.const_eval(fl.get("end"), {}) if "end" in fl else None
+            if "start" in fl and ir.const_eval(fl["start"], {}) != 0:
+                bound = None       # the loop must make `bound` rounds
         ck.check(bool(c1) and c1 == c2 and bound is not None and bound >= 3, "R-PM-DEPTH", "shared-limit", "lookup loop and coverage recursion are limited by the same constant (%s = %s levels; the specification allows root + leaf levels)" % (sorted(c1), bound),
                  "lookup and coverage scan do not share one depth limit (scan: %s, lookup: %s, bound %s)" % (sorted(c1), sorted(c2), bound), ir.loc(pl))
 
